@@ -11,11 +11,11 @@
     checks, formats and constraints defined in the same handler enter only
     through the table lookup (C05: exact keys and unambiguous abbreviations are
     found in every definition order) and the frame property. *)
-From Coq Require Import List NArith ZArith Bool.
+From Coq Require Import List NArith ZArith Bool Lia.
 Import ListNotations.
 Require Import Celma.Common.Res Celma.ArgH.Key Celma.ArgH.Table Celma.ArgH.TableProofs Celma.ArgH.Lex
                Celma.ArgH.Handler Celma.ArgH.HandlerProofs Celma.ArgH.Spell Celma.ArgH.SpellProofs
-               Celma.ArgH.UseProofs.
+               Celma.ArgH.UseProofs Celma.ArgH.RulesProofs Celma.ArgH.ValidProofs.
 
 Theorem C03_acceptance_spelling_independent :
   forall c, fixed_notify c = true ->
@@ -73,3 +73,50 @@ Theorem C03_end_rules :
     Forall2 (gc_satisfied (arts s)) (firstn (length (gsts s)) (gcons c)) (firstn (length (gcons c)) (gsts s)).
 Proof. exact final_checks_ok. Qed.
 Print Assumptions C03_end_rules.
+
+(** Grammar form, completeness on the scalar fragment (flags, int, string,
+    optional<int> destinations with any checks, formats and cardinalities,
+    requires / excludes, all_of / any_of / one_of): a command line whose
+    abstract content obeys every declared rule ([valid], ArgH/ValidProofs.v:
+    known keys, values that pass checks and convert, uses within the
+    cardinality, no use after an excluder, every required argument used
+    afterwards, handler constraints met, mandatory arguments used) is accepted
+    in EVERY legal spelling - whatever else is defined in the handler. *)
+Theorem C03_valid_line_accepted :
+  forall c inits us ws,
+    fixed_notify c = true -> RulesProofs.specs_canonical c -> length inits = length (args c) ->
+    ValidProofs.valid c us -> spell c us ws ->
+    exists s', eval_arguments c inits [] None ws = Ok s'.
+Proof. exact ValidProofs.valid_line_accepted. Qed.
+Print Assumptions C03_valid_line_accepted.
+
+(** Non-vacuity: a configuration with a flag -v, an int -n/--number and a string
+    --name, the line "v, number=5, name=x" is valid. *)
+Definition nv_flag (k : key) : argdef :=
+  {| a_key := k; a_kind := DBool; a_vmode := VMNone; a_mand := false; a_multi := false; a_sep := 44%N;
+     a_clear := false; a_sort := false; a_uniq := false; a_uniq_err := false; a_checks := []; a_fmts := [];
+     a_card := CardMax 1; a_excl := []; a_req := []; a_depr := false; a_mix := false |}.
+Definition nv_val (k : key) (kd : dkind) : argdef :=
+  {| a_key := k; a_kind := kd; a_vmode := VMRequired; a_mand := false; a_multi := false; a_sep := 44%N;
+     a_clear := false; a_sort := false; a_uniq := false; a_uniq_err := false; a_checks := []; a_fmts := [];
+     a_card := CardMax 1; a_excl := []; a_req := []; a_depr := false; a_mix := false |}.
+Definition nv_cfg : cfg :=
+  {| args := [nv_flag (key_of_char 118%N); nv_val {| kc := 110%N; kw := [110; 117; 109]%N |} DInt;
+              nv_val {| kc := 0%N; kw := [110; 97; 109; 101]%N |} DStr];
+     gcons := [GCAny [key_of_char 118%N; key_of_char 110%N]]; abbr := true; fixed_notify := true |}.
+Definition nv_line : list use := [UVal 1 [53%N]; UVal 2 [120%N]].
+
+Example C03_nonvacuous : ValidProofs.valid nv_cfg nv_line.
+Proof.
+  constructor.
+  - repeat constructor.
+  - repeat constructor; cbn; auto; eexists; reflexivity.
+  - intros [|[|[|i]]] Hi; cbn in *; try lia; right; cbn; lia.
+  - intros pre j mid u post k _ Hk. unfold argdef_of in Hk.
+    destruct (use_index j) as [|[|[|n]]]; cbn in Hk; try contradiction; try (destruct n; contradiction).
+  - intros pre j post k _ Hk. unfold argdef_of in Hk.
+    destruct (use_index j) as [|[|[|n]]]; cbn in Hk; try contradiction; try (destruct n; contradiction).
+  - repeat constructor; vm_compute; lia.
+  - repeat constructor.
+  - intros [|[|[|i]]] Hi Hm; cbn in *; try discriminate; lia.
+Qed.
